@@ -26,7 +26,13 @@ type Pool struct {
 }
 
 func New(options Options) *Pool {
+	// until the first Run the pool has a cancelled context: Send is a no-op instead of a nil dereference
+	ctx, cancel := context.WithCancel(context.Background())
+	cancel()
+
 	return &Pool{
+		ctx:    ctx,
+		cancel: cancel,
 		opts: Options{
 			NumWorkers:   max(options.NumWorkers, minNumWorkers),
 			SendDuration: max(options.SendDuration, minSendDuration),
